@@ -104,19 +104,32 @@ func inputsPart(r *vlib.Run) {
 		r.Note("DIAGNOSTIC RUN restricted to parts %q", sel)
 		return strings.Contains(","+sel+",", ","+name+",")
 	}
+	// Each part is prepared sequentially, computed concurrently (the pool keeps
+	// the number of executor children at the worker count) and recorded
+	// sequentially in a fixed order, so that evidence and samples do not depend
+	// on timing.
 	var hang *hangProbe
 	if want("hang") {
-		hang = startHangProbe(r, p) // runs in the background, bounded by its own timeout
+		hang = startHangProbe(r, p) // runs in the background, bounded by its own limit
 	}
-	phase("start")
+	nop := func() {}
+	smallCompute, smallRecord, largeCompute, largeRecord := nop, nop, nop, nop
 	if want("small") {
-		smallInputs(r, p)
+		smallCompute, smallRecord = smallInputs(r, p)
 	}
-	phase("small files")
 	if want("large") {
-		largeInputs(r, p)
+		largeCompute, largeRecord = largeInputs(r, p)
 	}
-	phase("large files")
+	phase("prepare")
+	var wg sync.WaitGroup
+	wg.Add(2)
+	go func() { defer wg.Done(); largeCompute() }() // long cells first
+	go func() { defer wg.Done(); smallCompute() }()
+	wg.Wait()
+	phase("compute")
+	smallRecord()
+	largeRecord()
+	phase("record")
 	if hang != nil {
 		hang.collect(r)
 	}
